@@ -179,7 +179,7 @@ def tail(path, n=40):
 
 
 def save_replay(pid, failure):
-    d = os.path.join(VERIF, "replays", pid)
+    d = os.path.join(os.environ.get("VERIF_REPLAYS", os.path.join(VERIF, "replays")), pid)
     os.makedirs(d, exist_ok=True)
     body = json.dumps(failure, indent=1, sort_keys=True)
     h = hashlib.sha1(json.dumps(failure.get("case"), sort_keys=True).encode()).hexdigest()[:12]
